@@ -89,7 +89,7 @@ def _case(draw):
         "titles": draw(st.sampled_from([False, False, True])),
         # the full handler list (ZIP, scripts, PYG, TAL, URL type rewriter ...), and directories at or below a top-level
         # directory with a one-character name (where the type rewriter reads '/1/foo' as type 1 + '/foo')
-        "fulllist": draw(st.booleans()), "again": draw(st.sampled_from([False, False, True])),
+        "fulllist": draw(st.booleans()), "again": draw(st.sampled_from([False, False, True])), "gmap": draw(st.sampled_from([False, False, False, True])),
         "top": draw(st.sampled_from(["sub0", "sub0", "1", "0", "h"])),
     }
 
@@ -113,6 +113,12 @@ def _spec(case, with_faults):
         named = [nm for nm in named if not re.search(r"[\t\r\n]", nm) and nm == nm.strip() and not nm.startswith(".")]
         if named:
             spec.append([pre + ".zz-titles", "f", "\n".join("Name=Nice title %d\nPath=./%s\n" % (i, nm) for i, nm in enumerate(named))])
+    if case.get("gmap") and "gophermap" not in [nm for _, nm in case["faults"]] + [g[0] for g in case["good"]]:
+        # the directory is a gophermap menu whose lines name every entry, the faulty ones included (a menu may well link to
+        # something that has since become unservable): each line is one entry, the menu as a whole must still come
+        allnames = [g[0] + (".html" if g[1] == "h" else "") for g in case["good"]] + [nm for _, nm in case["faults"]]
+        allnames = [nm for nm in allnames if not re.search(r"[\t\r\n]", nm) and nm == nm.strip()]
+        spec.append([pre + "gophermap", "f", "A menu\n" + "".join("0Entry %d\t%s\n" % (i, nm) for i, nm in enumerate(allnames))])
     for name, kind, content in case["good"]:
         if kind == "d":
             spec.append([pre + name, "d", None])
@@ -230,7 +236,7 @@ def check_case(case, ctx):
         i = allnames.index(nm)
         pos = "first" if i == 0 else ("last" if i == len(allnames) - 1 else "middle")
         ctx.label("fault:" + k, "pos:" + pos)
-    ctx.label("form:" + form, "handler:" + case["handler"], "nfaults:%d" % len(case["faults"]), "second-listing-from-cache:%s" % bool(case.get("again")))
+    ctx.label("form:" + form, "handler:" + case["handler"], "nfaults:%d" % len(case["faults"]), "second-listing-from-cache:%s" % bool(case.get("again")), "gophermap-menu:%s" % bool(case.get("gmap")))
     ctx.nontriv()
     ctx.sample(cls=ksig)
 
